@@ -312,3 +312,18 @@ def gen_contenders(rng, make_body, n=None, fault=True, until=None, scope_name=0,
                 [['cancel', base_task + j, rng.randint(1, 9)]]
             roots.append(['prog'] + prog)
     return roots
+
+
+def shift_scenario(sc, offset):
+    """the same program with the start time and every absolute date moved by `offset` (delays and periods stay): what
+    the library does must not depend on how large the clock value is"""
+    def walk(x):
+        if not isinstance(x, list) or not x:
+            return x
+        h = x[0]
+        if h in ('after', 'before', 'moment', 'start', 'till') and len(x) == 2 and not isinstance(x[1], list):
+            return [h, x[1] + offset]
+        if h == 'spawn':
+            return ['spawn', x[1], x[2], x[3], (None if x[4] is None else x[4] + offset), x[5], walk(x[6])]
+        return [walk(e) for e in x]
+    return walk(sc)
